@@ -1,7 +1,7 @@
 from __future__ import annotations
 
-import codecs
 import configparser
+import io
 import os.path
 import re
 import shelve
@@ -376,8 +376,10 @@ class VFSZip(VFS_Real):
         # zip.open() will only return the file object in bytes mode
         fp = self.zip.open(item)
         if mode == "r":
-            # Attempted to read in "text mode", so decode the bytestream
-            fp = codecs.getreader("utf-8")(fp, errors=errors)
+            # Attempted to read in "text mode": return the kind of object a
+            # text file of the real file system is (same line breaking,
+            # bounded readlines(), decoder finalised at the end of the member)
+            fp = io.TextIOWrapper(fp, encoding="utf-8", errors=errors)
 
         return fp
 
